@@ -268,6 +268,33 @@ def compare_tree(ctx, case, r, m):
         ctx.disagree(case, "real: " + ", ".join(diffs) + " differ", "model", note="expression tree: " + ", ".join(diffs))
 
 
+def compare_exact(ctx, case, r, m):
+    """class E: every float of the real result must EQUAL the model's exact rational (value, Jacobian, adjoint, metric)"""
+    from fractions import Fraction
+    if "error" in r or "error" in m:
+        if "error" in m:
+            ctx.disagree(case, "values", m, "class E: model rejects the tree")
+        return
+    din = r["din"]
+    nin, nout = X.nflat(din), X.nflat(X.dom(case["expr"]))
+    F = lambda a: [Fraction(float(v)) for v in np.asarray(a, dtype=np.float64).ravel()]
+    Q = lambda l: [Fraction(v) for v in l]
+    diffs = []
+    if F(r["pval"]) != Q(m["pval"]) or F(r["val"]) != Q(m["val"]):
+        diffs.append("value")
+    if F(np.asarray(r["jac"]).T) != [q for row in m["jac"] for q in Q(row)]:
+        diffs.append("jacobian")
+    if F(np.asarray(r["adj"]).T) != [q for row in m["adj"] for q in Q(row)]:
+        diffs.append("adjoint")
+    if (r["metric"] is None) != (m["metric"] is None):
+        diffs.append("metric presence")
+    elif r["metric"] is not None and case.get("_metric_exact") and F(np.asarray(r["metric"]).T) != [q for row in m["metric"] for q in Q(row)]:
+        diffs.append("metric")
+    if diffs:
+        ctx.disagree(case, "real (exact comparison): " + ", ".join(diffs) + " differ", "model (rational)",
+                     note="class E exact comparison: " + ", ".join(diffs))
+
+
 def expected_metric(b, t, x, din):
     """metric the property demands, from REAL Jacobians of the sub-operators: JᵀNJ at energies, sums add, chains sandwich"""
     k = t["t"]
@@ -529,10 +556,24 @@ def run(ctx):
             din = r["din"]
             ctx.stat("metric:" + ("some" if r["metric"] is not None else "none"))
         reqs.append(model_request(c, din))
+    # class E: polynomial / piecewise-linear trees at dyadic inputs are additionally compared EXACTLY with the rational model
+    exact = []
+    for c, r in zip(cases, reals):
+        bits = X.exact_bits(c["expr"])
+        if bits is not None and bits <= 48 and "error" not in r:
+            c2 = dict(c, _metric_exact=2 * bits + 10 <= 52)
+            exact.append((c2, r, dict(op="linq", **{"in": [[k, n] for k, n in X.flat_dom(r["din"])]},
+                                      x={k: [str(__import__("fractions").Fraction(float(v))) for v in c["x"][k]] for k in r["din"]},
+                                      wm=c["wm"], expr=X.ship_q(c["expr"]))))
+    ctx.stat("class-E-trees", len(exact))
     outs = []
     B = 250
-    for i in range(0, len(reqs), B):
-        outs += ctx.model(DRIVER, reqs[i:i + B])
+    allreq = reqs + [e[2] for e in exact]
+    for i in range(0, len(allreq), B):
+        outs += ctx.model(DRIVER, allreq[i:i + B])
+    for (c2, r, _), m in zip(exact, outs[len(reqs):]):
+        compare_exact(ctx, {k: v for k, v in c2.items()}, r, m)
+    outs = outs[:len(reqs)]
     for c, r, m in zip(cases, reals, outs):
         compare_tree(ctx, c, r, m)
         compare_arith(ctx, c, r, arith_eval(c), m)
